@@ -395,7 +395,8 @@ const XMLCh* ListDatatypeValidator::getCanonicalRepresentation(const XMLCh*     
         }
     }
    
-    XMLSize_t retBufSize = 2 * XMLString::stringLen(rawData);
+    // (room for the terminator also when the list is empty)
+    XMLSize_t retBufSize = 2 * XMLString::stringLen(rawData) + 2;
     XMLCh* retBuf = (XMLCh*) toUse->allocate(retBufSize * sizeof(XMLCh));
     retBuf[0] = 0;
     XMLCh* retBufPtr = retBuf;
@@ -406,9 +407,15 @@ const XMLCh* ListDatatypeValidator::getCanonicalRepresentation(const XMLCh*     
         for (unsigned int i = 0; i < tokenVector->size(); i++)
         {
             XMLCh* itemCanRep = (XMLCh*) itemDv->getCanonicalRepresentation(tokenVector->elementAt(i), toUse, false);
+            if (!itemCanRep)
+            {
+                // an item that has no canonical representation (not valid)
+                toUse->deallocate(retBuf);
+                return 0;
+            }
             XMLSize_t itemLen = XMLString::stringLen(itemCanRep); 
 
-            if(retBufPtr+itemLen+2 >= retBuf+retBufSize)
+            while(retBufPtr+itemLen+2 >= retBuf+retBufSize)
             {
                 // need to resize
                 XMLCh * oldBuf = retBuf;
